@@ -7,11 +7,28 @@ import "fmt"
 var thresholds = []float64{0.7, 0.75, 0.8, 0.9, 0.95, 0.99, 1.0}
 
 // genericInputs: inputs that exercise the whole pipeline for a given corpus.
+var matchFamily = "generic"
+
+// familyCase: which kinds of inputs a property's model stream concentrates on
+func familyCase(r *rng) int {
+	switch matchFamily {
+	case "planted": // C01
+		return []int{0, 1, 1, 1, 3}[r.intn(5)]
+	case "edited": // C02
+		return []int{2, 2, 4, 5, 5, 3}[r.intn(6)]
+	case "shifted": // C07
+		return []int{1, 5, 5, 2}[r.intn(4)]
+	case "hostile": // C10
+		return []int{6, 7, 7, 4}[r.intn(4)]
+	}
+	return r.intn(8)
+}
+
 func genericInputs(r *rng, docs []corpusDoc, n int) []input {
 	var ins []input
 	for i := 0; i < n; i++ {
 		d := docs[r.intn(len(docs))]
-		switch r.intn(8) {
+		switch familyCase(r) {
 		case 0:
 			ins = append(ins, input{"self:" + d.name, d.text})
 		case 1:
@@ -37,14 +54,15 @@ func genericInputs(r *rng, docs []corpusDoc, n int) []input {
 	return ins
 }
 
-func cmdMatch(seed uint64, tier, outdir string) {
+func cmdMatch(seed uint64, tier, outdir string, family string) {
 	dumpTables(outdir)
-	r := newRng(seed, "match")
+	r := newRng(seed, "match-"+family)
 	all := embeddedDocs()
-	nEmb, nIn, nSyn, nSynIn := 25, 40, 6, 40
+	nEmb, nIn, nSyn, nSynIn := 20, 24, 4, 16
 	if tier == "thorough" {
 		nEmb, nIn, nSyn, nSynIn = 120, 400, 40, 200
 	}
+	matchFamily = family
 	cw := mustCreate(outdir, "match.cases")
 	iw := mustCreate(outdir, "match.impl")
 	nw := mustCreate(outdir, "match.names")
@@ -67,6 +85,9 @@ func cmdMatch(seed uint64, tier, outdir string) {
 		}
 		run(buildCorpus(thr, docs), genericInputs(r, docs, nSynIn))
 	}
+	// threshold 0 (accepted by NewClassifier): inputs without words
+	z := buildCorpus(0, emb[:3])
+	run(z, []input{{"empty", nil}, {"notice-only", []byte("Copyright (c) 2020 Foo\n")}, {"punct", []byte("-- ** //\n")}, {"self", emb[0].text}})
 	cw.close()
 	iw.close()
 	nw.close()
